@@ -61,6 +61,22 @@ def fan():
     return mk(v, e, [0, 1, 2, 0])
 
 
+def two_tets_glued():
+    """Two tetrahedra glued along a common face (element 0, domain 0); upper faces domain 1, lower faces domain 2.
+    The three edges of the common face touch three triangles each."""
+    v = [[0, 0, 0], [1, 0, 0], [0, 1, 0], [0.3, 0.3, 1.0], [0.3, 0.3, -1.0]]
+    e = [[0, 1, 2], [0, 1, 3], [1, 2, 3], [2, 0, 3], [1, 0, 4], [2, 1, 4], [0, 2, 4]]
+    return mk(v, e, [0, 1, 1, 1, 2, 2, 2])
+
+
+def t_junction():
+    """A 2x1 screen (domains 1, 2) with a perpendicular fin (domain 3) standing on its middle edge; the fin's first
+    triangle has the lowest element index."""
+    v = [[0, 0, 0], [1, 0, 0], [2, 0, 0], [0, 1, 0], [1, 1, 0], [2, 1, 0], [1, 0, 1], [1, 1, 1]]
+    e = [[1, 4, 7], [1, 7, 6], [0, 1, 4], [0, 4, 3], [1, 2, 5], [1, 5, 4]]
+    return mk(v, e, [3, 3, 1, 1, 2, 2])
+
+
 def torus(n=3, m=3):
     R, r = 2.0, 0.7
     v = []
@@ -99,6 +115,7 @@ def tables(grid):
     vn, ptr = grid.vertex_neighbors
     return {
         "nvert": int(grid.number_of_vertices), "nedge": int(grid.number_of_edges),
+        "vertices": [[float(x) for x in grid.vertices[:, v]] for v in range(grid.number_of_vertices)],
         "elems": [[int(x) for x in grid.elements[:, e]] for e in range(grid.number_of_elements)],
         "eedges": [[int(x) for x in grid.element_edges[:, e]] for e in range(grid.number_of_elements)],
         "enbrs": [[int(x) for x in l] for l in grid.edge_neighbors],
